@@ -437,6 +437,176 @@ class Sess:
         kp.process_keys()
 
 
+class Sess2(Sess):
+    """A hand-built Application: two BufferControls (A, B) that share ONE
+    SearchBufferControl, emacs bindings; KeyProcessor driven directly."""
+
+    def __init__(self, ic):
+        from prompt_toolkit.application import Application
+        from prompt_toolkit.buffer import Buffer
+        from prompt_toolkit.input.defaults import create_pipe_input
+        from prompt_toolkit.layout import HSplit, Layout, Window
+        from prompt_toolkit.layout.controls import BufferControl, SearchBufferControl
+        from prompt_toolkit.output import DummyOutput
+        self.vi, self.ic = 0, ic
+        self._inp_cm = create_pipe_input()
+        self.inp = self._inp_cm.__enter__()
+        self.sbuf = Buffer()
+        self.sc = SearchBufferControl(buffer=self.sbuf, ignore_case=bool(ic))
+        self.bufs = [Buffer(), Buffer()]
+        self.ctrls = [BufferControl(buffer=b, search_buffer_control=self.sc, preview_search=True) for b in self.bufs]
+        self.app = Application(layout=Layout(HSplit([Window(self.ctrls[0]), Window(self.ctrls[1]), Window(self.sc)]),
+                                             focused_element=self.ctrls[0]),
+                               input=self.inp, output=DummyOutput())
+        self.seen = [[], []]
+        for j in (0, 1):
+            orig = self.ctrls[j]._create_get_processed_line_func
+
+            def spy(document, w, h, _j=j, _orig=orig):
+                self.seen[_j].append(document)
+                return _orig(document, w, h)
+            self.ctrls[j]._create_get_processed_line_func = spy
+        self.focus = 0
+
+    def reset2(self, a, b):
+        from prompt_toolkit.search import SearchDirection
+        app = self.app
+        app.layout.search_links.clear()
+        app.layout.focus(self.ctrls[0])
+        self.focus = 0
+        self.sbuf.reset()
+        set_state(self.bufs[0], *a)
+        set_state(self.bufs[1], *b)
+        ss = self.sc.searcher_search_state
+        ss.text = ""
+        ss.direction = SearchDirection.FORWARD
+        app.key_processor.reset()
+
+    def switch(self):
+        self.focus = 1 - self.focus
+        self.app.layout.focus(self.ctrls[self.focus])
+
+    def observe2(self):
+        from prompt_toolkit.search import SearchDirection
+        docs = []
+        for j in (0, 1):
+            self.ctrls[j].create_content(80, 10)
+            docs.append(self.seen[j][-1])
+            del self.seen[j][:]
+        f, o = self.focus, 1 - self.focus
+        ss = self.sc.searcher_search_state
+        if self.ctrls[0].search_state is not ss or self.ctrls[1].search_state is not ss:
+            raise RuntimeError("the two controls do not share one SearchState")
+        b, ob = self.bufs[f], self.bufs[o]
+        # while searching, the focus is on the search field and the target is the control that had it
+        tgt = self.app.layout.search_target_buffer_control
+        if self.app.layout.is_searching and tgt is not self.ctrls[f]:
+            raise RuntimeError("search target is not the control that had the focus")
+        main = [b.working_index, b.cursor_position, [S(x) for x in b._working_lines],
+                S(self.sbuf.text), self.sbuf.cursor_position, 1 if self.app.layout.is_searching else 0,
+                S(ss.text), 0 if ss.direction == SearchDirection.FORWARD else 1,
+                S(docs[f].text), docs[f].cursor_position]
+        return [main, 1 if f == 0 else 0, ob.working_index, ob.cursor_position, [S(x) for x in ob._working_lines],
+                S(docs[o].text), docs[o].cursor_position]
+
+
+def impl_shared_case(sess, case):
+    from prompt_toolkit.application.current import set_app
+    _, wa, ia, ca, wb, ib, cb, ic, keys = case
+    out, trace = [], []
+    with set_app(sess.app):
+        sess.reset2(([unS(x) for x in wa], ia, ca), ([unS(x) for x in wb], ib, cb))
+        prev = sess.observe2()
+        for k in keys:
+            searching = prev[0][5]
+            if (k[0] == 21 and searching) or (k[0] != 21 and not enabled(0, searching, k)):
+                out.append(-2)
+                break
+            try:
+                if k[0] == 21:
+                    sess.switch()
+                else:
+                    with_watchdog(lambda: sess.press(k), 10)
+                obs = sess.observe2()
+            except Hang:
+                out.append(-98)
+                trace.append((prev, k, "hang"))
+                break
+            except Exception as e:  # noqa
+                out.append(-3)
+                trace.append((prev, k, "raise %s: %s" % (type(e).__name__, e)))
+                break
+            out.append(obs)
+            trace.append((prev, k, obs))
+            prev = obs
+    return out, trace
+
+
+def oracle_shared(case, trace):
+    """The control that is not being searched keeps text, cursor, index and
+    shows its own document; the searched one obeys the single-control clauses."""
+    ic = case[7]
+    sub = []
+    for prev, k, obs in trace:
+        if isinstance(obs, str):
+            return ("key %s: %s" % (KEYNAMES.get(k[0], "switch"), obs), {"key": KEYNAMES.get(k[0], "switch"), "family": "raise", "layout": "shared"})
+        if k[0] == 21:
+            continue
+        if obs[2:5] != prev[2:5]:
+            return ("key %s changed the buffer of the control that is not searched" % KEYNAMES[k[0]],
+                    {"key": KEYNAMES[k[0]], "family": "shared-other", "layout": "shared"})
+        ot = unS(obs[4][obs[2]])
+        if (unS(obs[5]), obs[6]) != (ot, obs[3]):
+            return ("the control that is not searched displays a search preview", {"key": KEYNAMES[k[0]], "family": "shared-preview", "layout": "shared"})
+        sub.append((prev[0], k, obs[0]))
+    bad = oracle_session([3, 0, None, None, None, ic, None], sub)
+    if bad:
+        return (bad[0], dict(bad[1], layout="shared"))
+    return None
+
+
+def gen_shared_cases(chk, dist):
+    rng = chk.rng
+    thorough = chk.tier == "thorough"
+    cases = []
+    for _ in range(2500 if thorough else 350):
+        hs = []
+        for _j in (0, 1):
+            h = ["".join(rng.choice(["a", "a", "A", "b", ".", "\n"]) for _ in range(rng.randint(0, 4)))
+                 for _ in range(rng.randint(1, 4))]
+            wi = rng.randrange(len(h))
+            hs.append((h, wi, rng.randint(0, len(h[wi]))))
+        keys, searching, flen = [], False, 0
+        for _k in range(rng.randint(3, 14)):
+            if not searching and rng.random() < 0.25:
+                keys.append([21])
+                continue
+            k = rand_keys_one(rng, searching)
+            keys.append(k)
+            c = k[0]
+            if not searching:
+                if c in (1, 2):
+                    searching = True
+            elif c in (4, 5, 7):
+                searching = False
+        cases.append([4, [S(x) for x in hs[0][0]], hs[0][1], hs[0][2], [S(x) for x in hs[1][0]], hs[1][1], hs[1][2],
+                      rng.randint(0, 1), keys])
+    dist["shared_search_field_sessions"] = len(cases)
+    return cases
+
+
+def rand_keys_one(rng, searching):
+    while True:
+        if searching:
+            k = rng.choice([[1], [2], [1], [3], [3], [3], [4], [4], [5], [6], [7], [12], [13], [14], [15], [16], [17], [18]])
+        else:
+            k = rng.choice([[1], [2], [1], [3], [6]])
+        if k[0] == 3:
+            k = [3, ord(rng.choice(["a", "a", "A", "b", "."]))]
+        if enabled(0, searching, k):
+            return k
+
+
 def enabled(vi, searching, k):
     """Keys of the model in this state (mirror of key_step's None cases; the
     generator only emits these)."""
@@ -790,6 +960,10 @@ def describe(c, a, m):
     if c and c[0] == 2:
         return "Document(%r,%d) find/find_backwards(%r, ignore_case=%d, count=%d) impl=%r model=%r" % (
             unS(c[1]), c[2], unS(c[3]), c[4], c[5], a, m)
+    if c and c[0] == 4:
+        return "two controls sharing one search field: A=%r index=%d cursor=%d B=%r index=%d cursor=%d ic=%d keys=%r" % (
+            [unS(x) for x in c[1]], c[2], c[3], [unS(x) for x in c[4]], c[5], c[6], c[7],
+            [("switch-focus" if k[0] == 21 else KEYNAMES[k[0]] + ("(%s)" % (chr(k[1]) if k[0] == 3 else k[1]) if len(k) > 1 else "")) for k in c[8]])
     if c and c[0] == 3:
         return "session mode=%s lines=%r index=%d cursor=%d ic=%d keys=%r" % (
             "vi" if c[1] else "emacs", [unS(x) for x in c[2]], c[3], c[4], c[5], [KEYNAMES[k[0]] + ("(%s)" % (chr(k[1]) if k[0] == 3 else k[1]) if len(k) > 1 else "") for k in c[6]])
@@ -808,6 +982,11 @@ def tagger(c, a, m):
         return {"op": "Buffer._search"}
     if c[0] == 2:
         return {"op": "Document.find"}
+    if c[0] == 4:
+        for j, (x, y) in enumerate(zip(a, m if isinstance(m, list) else [])):
+            if x != y:
+                return {"op": "shared-session", "key": KEYNAMES.get(c[8][j][0], "switch")}
+        return {"op": "shared-session"}
     if c[0] == 3:
         for j, (x, y) in enumerate(zip(a, m if isinstance(m, list) else [])):
             if x != y:
@@ -816,9 +995,26 @@ def tagger(c, a, m):
     return {"op": "malformed"}
 
 
-async def run_sessions(chk, cases, results, traces):
+async def run_sessions(chk, cases, results, traces, shared=None):
     sessions = {}
     try:
+        if shared is not None:
+            sh_cases, sh_results, sh_traces = shared
+            s2 = {}
+            try:
+                for i, c in enumerate(sh_cases):
+                    if c[7] not in s2:
+                        s2[c[7]] = Sess2(c[7])
+                    out, trace = impl_shared_case(s2[c[7]], c)
+                    sh_results.append(out)
+                    sh_traces.append(trace)
+                    if any(isinstance(o, int) and o in (-3, -98) for o in out):
+                        s2.pop(c[7]).close()
+                    if i % 50 == 0:
+                        await asyncio.sleep(0)
+            finally:
+                for x in s2.values():
+                    x.close()
         for i, c in enumerate(cases):
             key = (c[1], c[5])
             if key not in sessions:
@@ -875,7 +1071,7 @@ def main(tier):
     tagged += [(1, c) for c in bcases] + [(2, c) for c in dcases] + [(0, m) for m in MALFORMED]
     corpus_sessions = [c for k, c in tagged if k == 3]
     for kind, c in tagged:
-        if kind == 3:
+        if kind in (3, 4):
             continue
         i = len(cases)
         cases.append(c)
@@ -924,7 +1120,9 @@ def main(tier):
     import gc
     gc.collect()
     gc.freeze()
-    asyncio.run(run_sessions(chk, scases, sres, straces))
+    shcases = gen_shared_cases(chk, dist) + [c for c in corpus if c and c[0] == 4]
+    shres, shtraces = [], []
+    asyncio.run(run_sessions(chk, scases, sres, straces, shared=(shcases, shres, shtraces)))
     for j, (c, out, trace) in enumerate(zip(scases, sres, straces)):
         i = base + j
         cases.append(c)
@@ -936,6 +1134,15 @@ def main(tier):
             report(i, c, bad, out[-2:])
         if j % 701 == 0:
             chk.sample({"session": describe(c, None, None), "last_observation": out[-1] if out else None})
+
+    for c, out, trace in zip(shcases, shres, shtraces):
+        i = len(cases)
+        cases.append(c)
+        impl_results.append(out)
+        chk.count_case(c, any(isinstance(o, list) and (o[0][0], o[0][1]) != (c[2], c[3]) for o in out))
+        bad = oracle_shared(c, trace)
+        if bad:
+            report(i, c, bad, out[-2:])
 
     dist["corpus"] = len(corpus)
     dist["malformed"] = len(MALFORMED)
@@ -1009,6 +1216,23 @@ def replay(data):
                                     {"index": obs[0], "cursor": obs[1], "text": unS(obs[2][obs[0]]), "field": unS(obs[3]), "field_cursor": obs[4], "searching": obs[5],
                                      "state_text": unS(obs[6]), "state_dir": obs[7], "shown": (unS(obs[8]), obs[9])}))
         bad = oracle_session(case, tr[0])
+    elif case and case[0] == 4:
+        res, tr = [], []
+
+        async def go2():
+            s = Sess2(case[7])
+            try:
+                o, t = impl_shared_case(s, case)
+                res.append(o)
+                tr.append(t)
+            finally:
+                s.close()
+        asyncio.run(go2())
+        out = res[0]
+        print(describe(case, out, "-"))
+        for prev, k, obs in tr[0]:
+            print("  %-12s -> %r" % ("switch-focus" if k[0] == 21 else KEYNAMES[k[0]], obs))
+        bad = oracle_shared(case, tr[0])
     else:
         print("malformed case", case)
         return 0
